@@ -303,7 +303,16 @@ def make_mvcapa(n, p, m, M, mode="c03", creg="general", preg="sparse", colperm=N
                          collective_penalty_scale=SymReal(cscale), point_penalty=_mv_penalty(pa, pb),
                          min_segment_length=m, max_segment_length=M)
             det.fit(Xfit)
-            out = det.predict(X)
+            try:
+                out = det.predict(X)
+            except ValueError:
+                if colperm is None:
+                    raise
+                # a detector may refuse a frame whose labelled columns are ordered differently from the training frame
+                # (feature-name validation): then nothing is reported and nothing is claimed
+                acc.inc("relabelled_frame_rejected_with_ValueError")
+                acc.concrete("relabelled.rejected_or_answered", True)
+                return
             scores = [rv(v) for v in det.scores.values]
         except Exception as ex:
             acc.concrete("runs_to_completion", False, dict(info, exception=f"{type(ex).__name__}: {ex}"[:200]), eng=eng)
